@@ -28,6 +28,7 @@ type WorkloadView struct {
 	Ready      int
 	ByRevision map[string]int // short hash -> pods
 	ReadyByRevision map[string]int
+	MaxUnavailable int // what the workload's own strategy tolerates as unavailable
 	CanaryPods, CanaryPodsReady int // pods of an extra canary Deployment (canary style)
 	Controlled bool // batchrelease control-info annotation present
 	InProgress bool // rollouts.kruise.io/in-progressing annotation present
@@ -73,6 +74,7 @@ func ViewWorkload(w *World, sc *Scenario) *WorkloadView {
 			ByRevision: map[string]int{}, ReadyByRevision: map[string]int{}}
 		_, v.Controlled = d.Annotations[util.BatchReleaseControlAnnotation]
 		_, v.InProgress = d.Annotations[util.InRolloutProgressingAnnotation]
+		v.MaxUnavailable = int(util.DeploymentMaxUnavailable(d))
 		v.Exposure, v.KnobText = deploymentExposure(w, sc, d)
 		// pods of the workload itself (through its ReplicaSets); pods of an extra canary Deployment are counted
 		// in ByRevision (they serve traffic) but not as "updated pods of the workload"
